@@ -385,7 +385,7 @@ def fits_bounded_instance():
 
     def make(B):
         return {'which': B.choose('which', ['cacgmm', 'cwmm', 'gmm-full', 'gmm-diagonal', 'gmm-spherical', 'vmfmm', 'gauss-full', 'gauss-diagonal',
-                                            'gauss-spherical', 'ccsg', 'vmf', 'watson', 'cacg', 'bingham']),
+                                            'gauss-spherical', 'ccsg', 'vmf', 'watson', 'cacg', 'bingham', 'cbmm']),
                 'nlead': B.choose('nlead', [1, 2, 3]), 'seed': B.choose('seed', list(range(3000))), 'd': B.given('d', np.zeros(1))}
 
     def call(inp):
@@ -394,16 +394,18 @@ def fits_bounded_instance():
         lead = tuple(int(v) for v in rng.randint(1, 4, size=inp['nlead']))
         if which == 'bingham':
             lead = lead[:1]
+        if which == 'cbmm':
+            lead = tuple(min(n, 2) for n in lead[:2])          # (the Bingham solver runs once per class and bin)
         K, N, D = 2, 14, 3
-        cplx = which in ('cacgmm', 'cwmm', 'ccsg', 'watson', 'cacg', 'bingham')
+        cplx = which in ('cacgmm', 'cwmm', 'ccsg', 'watson', 'cacg', 'bingham', 'cbmm')
         y = rng.normal(size=lead + (N, D)) + (1j * rng.normal(size=lead + (N, D)) if cplx else 0)
         init = rng.dirichlet(np.ones(K), size=lead + (N,))
         init = np.moveaxis(init, -1, -2).copy()
         sal = rng.uniform(0.3, 2.0, size=lead + (N,))
 
         def run(yy, ii, ss):
-            if which in ('cacgmm', 'cwmm', 'vmfmm') or which.startswith('gmm'):
-                cls = {'cacgmm': CACGMMTrainer, 'cwmm': CWMMTrainer, 'vmfmm': VMFMMTrainer}.get(which, GMMTrainer)
+            if which in ('cacgmm', 'cwmm', 'vmfmm', 'cbmm') or which.startswith('gmm'):
+                cls = {'cacgmm': CACGMMTrainer, 'cwmm': CWMMTrainer, 'vmfmm': VMFMMTrainer, 'cbmm': CBMMTrainer}.get(which, GMMTrainer)
                 kw = {'covariance_type': which[4:]} if which.startswith('gmm') else {}
                 tr = cls()
                 m = tr.fit(yy, initialization=ii, iterations=2, saliency=ss, **kw)
@@ -427,7 +429,7 @@ def fits_bounded_instance():
             return [np.asarray(m.covariance_eigenvalues), np.asarray(m.covariance)]
         full = run(y, init, sal)
         idx = tuple(int(rng.randint(0, n)) for n in lead)
-        sl = tuple(slice(i, i + 1) for i in idx[:-1]) + (idx[-1],) if which in ('cacgmm', 'cwmm', 'vmfmm') or which.startswith('gmm') else idx
+        sl = tuple(slice(i, i + 1) for i in idx[:-1]) + (idx[-1],) if which in ('cacgmm', 'cwmm', 'vmfmm', 'cbmm') or which.startswith('gmm') else idx
         part = run(y[idx], init[idx], sal[idx])
         return {'full': [np.asarray(f)[idx] for f in full], 'part': part, 'which': which}
 
@@ -437,7 +439,7 @@ def fits_bounded_instance():
         if ok:
             for i, (a, b) in enumerate(zip(out['full'], out['part'])):
                 same = np.shape(a) == np.shape(b) and np.allclose(a, b, rtol=1e-6, atol=1e-9)
-                if not same and out['which'] in ('cacgmm', 'cacg', 'watson', 'cwmm') and np.shape(a) == np.shape(b) and np.ndim(a) >= 1:
+                if not same and out['which'] in ('cacgmm', 'cacg', 'watson', 'cwmm', 'cbmm') and np.shape(a) == np.shape(b) and np.ndim(a) >= 1:
                     # eigenvectors are defined up to a phase: compare through the rank-one projectors
                     same = np.allclose(np.abs(a), np.abs(b), rtol=1e-5, atol=1e-8)
                 yield 'stacked-fit-indexed-equals-slice-fit[%d]' % i, bool(same)
